@@ -38,6 +38,7 @@ func c08(c *Ctx) {
 	c08memoValuesStayPrivate(c, pkg)
 	c08kindEstablished(c, pkg)
 	c08contentLengthReadOnly(c)
+	c17yamlNotStrict(c, "C08.R18")
 	c08validBeforeUse(c, pkg)
 	c08durationByType(c, pkg)
 	if os.Getenv("GZV_MEMO_SCAN") != "" {
